@@ -103,8 +103,19 @@ func settleLine(c []int64, f []bool, s []int, order []int) M {
 	for _, p := range ps {
 		r.AddPot(p.Total, p.Levels)
 	}
-	for i := 0; i < n; i++ {
+	// the players are registered in the REVERSE of the contributors' insertion order (C02 is quantified over vectors "given
+	// directly to the pot and settlement packages": nothing says the caller registers seat 0 first - seeded change R5b-A
+	// looked a player up by his position in the list); every registration order is met for up to 4 players
+	for k := 0; k < n; k++ {
+		i := k
+		if len(order) == n {
+			i = order[n-1-k]
+		}
 		r.AddPlayer(i, 1000000)
+	}
+	// (the scores are reported in seat order, as the engine does: the order of these calls decides which of the tied
+	// winners gets an odd chip - unspecified by C02 but part of the precise model)
+	for i := 0; i < n; i++ {
 		if f[i] {
 			r.UpdateScore(i, 0)
 		} else {
